@@ -163,3 +163,13 @@ Example remove_iiv_single_arg_fixed :
   remove_iiv_expr rETA TopExp [] (Fn1 F_EXP (Sym rETA)) = Fn1 F_EXP (Num 0) /\
   eval (env_of []) std_fi (remove_iiv_expr rETA TopExp [] (Fn1 F_EXP (Sym rETA))) = Some 1.
 Proof. split; vm_compute; reflexivity. Qed.
+
+(* guard "the chain is not a single compartment" of transit_rates_after_update (finding C09-TRANSIT-REDUCE-TO-ONE),
+   now on the model of _update_numerators: a lone remaining compartment with rate 3/MDT is not detected, the loop
+   runs over no compartment, the rate stays 3/MDT. *)
+Theorem transit_rates_refuted :
+  let rates := [{| tr_numer := NInt 3; tr_denom := Sym s_mdt |}] in
+  length rates = 1%nat /\
+  rates_after_update rates [] = (rates, []) /\
+  rate_value [] {| tr_numer := NInt 3; tr_denom := Sym s_mdt |} = Some (NInt 3, Sym s_mdt).
+Proof. repeat split. Qed.
